@@ -33,10 +33,13 @@ def _pick(r, seq):
     return seq[r.randrange(len(seq))]
 
 
-def gen_program(rng, klass=None, known=True):
+def gen_program(rng, klass=None, known=True, k=None):
+    """``k`` (pushdown only): running number of the case, so that the operations are taken in turn"""
     r = rng
     klass = klass or _pick(r, CLASSES)
     fn = "g_" + klass.replace("-", "_")
+    if klass == "pushdown":
+        return g_pushdown(r, known, k)
     return (globals().get(fn) or getattr(_Gen, fn))(r, known)
 
 
@@ -967,10 +970,30 @@ def g_indexcol(r, known):
         st["cols"] = [list(c) for c in cols]
     moves = []
     want = _pick(r, [1, 1, 2, 2, 3])
+    focus = r.random() < 0.15
+    if focus:
+        # the Series branch of ResetIndex._simplify_up: series[.rename | .rename_axis | filter].reset_index() read by ONE
+        # column selection (the column made from the index, or the values)
+        c = _pick(r, pool)
+        start = {"col": c[0]}
+        st.update(kind="S", ser=list(c), cols=[])
+        pre = _pick(r, [None, None, "rename", "rename_axis", "filter"])
+        if pre == "rename":
+            moves.append({"op": "rename", "name": _pick(r, ["v", "index", "level_0"])})
+        elif pre == "rename_axis":
+            moves.append({"op": "rename_axis", "name": _pick(r, ["ax", None, "index"])})
+        elif pre == "filter":
+            moves.append({"op": "filter", "col": "", "pred": _pred_for(c[1], "col")})
+        for mv in moves:
+            st = _ix_step(st, mv)
+        want = len(moves) + 1
     tries = 0
     while len(moves) < want and tries < 40:
         tries += 1
-        mv = _ix_propose(r, st)
+        mv = _ix_propose(r, st) if not focus else {"op": "reset_index", "drop": False}
+        if focus and tries > 1:
+            focus = False        # (name collision: go on with ordinary moves)
+            continue
         if mv is None:
             continue
         if len(moves) == want - 1 and not any(m["op"] in IX_MOVES for m in moves) and mv["op"] not in IX_MOVES:
@@ -996,6 +1019,8 @@ def g_indexcol(r, known):
                 w[k] = 0
         if len(st["cols"]) < 2:
             w.update({"arith2": 0.3, "getcols": 1})
+        if focus:
+            w = {"getcol": 3, "arith1": 1, "reduce": 1}
         tail = make_tail(r, _wpick(r, w), st["cols"])
     else:
         w = dict(_TAIL_W_S)
@@ -1152,8 +1177,10 @@ def _mp_double_a(p):
     return p.assign(a=p["a"] * 2)
 
 
-def g_pushdown(r, known):
+def g_pushdown(r, known, k=None):
     op = _pick(r, PUSHDOWN_OPS)
+    if k is not None:
+        op = PUSHDOWN_OPS[k % len(PUSHDOWN_OPS)]
     d = {"class": "pushdown", "op": op}
     num = ["a", "c", "d"]
     anycols = r.sample(_ALLCOLS, r.randint(3, 6))
